@@ -85,7 +85,10 @@ func (p *vpClientPaths) getPut(path, owner int, key string, v interface{}) (*Get
 func VerifC17_ClientRoundTrip() {
 	replicas := 1 + vpChoose("replicas", 2)
 	p := vpNewClientPaths(replicas)
-	part := uint64(vpChoose("partition", 2))
+	part := uint64(0)
+	if vpBound("full") == 1 {
+		part = uint64(vpChoose("partition", 2))
+	}
 	owner := int(part) % 2
 	key := p.cl.KeyForPartition("d", part, 0)
 	wpath := vpChoose("writer", 3)
@@ -220,21 +223,58 @@ func VerifC18_ClientSnapshot() {
 	orig := vpBytes("v", n)
 	buf := make([]byte, n)
 	copy(buf, orig)
-	wpath := vpChoose("writer", 3)
-	if vpChoose("write-by-getput", 2) == 1 {
+	ctx := context.Background()
+	full := vpBound("full") == 1
+	wpath := vpChoose("writer", 4)
+	wGetPut := vpChoose("write-by-getput", 2) == 1
+	if wpath == 3 {
+		// a pipeline of the cluster client: the buffer is the caller's again as soon as Put/GetPut has queued the
+		// command, i.e. before Exec
+		pipe, perr := p.cd.Pipeline()
+		vpAssume(perr == nil)
+		if wGetPut {
+			_, err := pipe.GetPut(ctx, key, buf)
+			vpAssume(err == nil)
+		} else {
+			_, err := pipe.Put(ctx, key, buf)
+			vpAssume(err == nil)
+		}
+		for i := range buf {
+			buf[i] ^= 0xff
+		}
+		vpAssume(pipe.Exec(ctx) == nil)
+	} else if wGetPut {
 		_, err := p.getPut(wpath, owner, key, buf)
 		vpAssume(err == nil)
 	} else {
 		vpAssume(p.put(wpath, owner, key, buf) == nil)
 	}
 	for i := range buf { // the caller reuses its buffer
-		buf[i] ^= 0xff
+		buf[i] ^= 0x0f
 	}
-	rpath := vpChoose("reader", 3)
+	rpath := vpChoose("reader", 4)
 	var got []byte
 	next := []byte{0x11, 0x22}
 	byGetPut := vpChoose("read-by-getput", 2) == 1
-	if byGetPut {
+	if rpath == 3 {
+		pipe, perr := p.cd.Pipeline()
+		vpAssume(perr == nil)
+		var r *GetResponse
+		var err error
+		if byGetPut {
+			f, qerr := pipe.GetPut(ctx, key, next)
+			vpAssume(qerr == nil)
+			vpAssume(pipe.Exec(ctx) == nil)
+			r, err = f.Result()
+		} else {
+			f := pipe.Get(ctx, key)
+			vpAssume(pipe.Exec(ctx) == nil)
+			r, err = f.Result()
+		}
+		vpAssume(err == nil && r != nil)
+		got, err = r.Byte()
+		vpAssume(err == nil)
+	} else if byGetPut {
 		r, err := p.getPut(rpath, owner, key, next)
 		vpAssume(err == nil && r != nil)
 		got, err = r.Byte()
@@ -252,7 +292,11 @@ func VerifC18_ClientSnapshot() {
 	}
 	mine := make([]byte, len(got))
 	copy(mine, got)
-	r2, err := p.get(vpChoose("reader2", 3), owner, key)
+	r2path := (rpath + 1) % 3
+	if full {
+		r2path = vpChoose("reader2", 3)
+	}
+	r2, err := p.get(r2path, owner, key)
 	vpAssume(err == nil && r2 != nil)
 	b2, err := r2.Byte()
 	vpAssume(err == nil)
@@ -262,8 +306,10 @@ func VerifC18_ClientSnapshot() {
 		vpAssert(vpBytesEq(b2, orig), "modifying-returned-bytes-does-not-alter-the-stored-value")
 	}
 	// later traffic on the key
-	ctx := context.Background()
-	lpath := vpChoose("later-path", 3)
+	lpath := (wpath + 1) % 3
+	if full {
+		lpath = vpChoose("later-path", 3)
+	}
 	switch vpChoose("later", 3) {
 	case 0:
 		vpAssume(p.put(lpath, owner, key, []byte{0x77, 0x78, 0x79}) == nil)
